@@ -402,6 +402,7 @@ func tamperScenario() explore.Scenario {
 					panic(err)
 				}
 				seenClass := map[string]bool{}
+				used := reach(live) // an object that has run Initialize/AddKeySlot itself: altered bytes are also loaded into it
 				for ti, t := range tampers(&ref) {
 					var st key_storage.Storage
 					if err := st.UnmarshalVT(data); err != nil {
@@ -445,6 +446,27 @@ func tamperScenario() explore.Scenario {
 						x.FailKey("tamper/"+strings.Fields(t.name)[0], "state %v, tamper %q: a key retrieval still succeeded (%v)", live, t.name, tags)
 					default:
 						informational++
+					}
+					// the same bytes loaded into an object that has already been used (its own earlier integrity
+					// tag must play no part in checking the loaded one)
+					// (not for removed slots: UnmarshalBinary merges into what the object holds, so a removed slot
+					// simply stays - the loaded state is then the untampered one)
+					if t.mustDetect && uerr == nil && allFail && strings.Fields(t.name)[0] != "remove" {
+						if err := used.UnmarshalBinary(tdata); err == nil {
+							cases++
+							for s, k := range live {
+								if k < 0 {
+									continue
+								}
+								if _, gerr := used.GetMasterKey(slots[s], keys[k].priv); gerr == nil {
+									x.FailKey("tamper-into-used-object/"+strings.Fields(t.name)[0], "state %v, tamper %q loaded into a storage object that was in use: GetMasterKey(slot %d) succeeds (a fresh object rejects the same bytes)", live, t.name, s)
+								}
+								break // one retrieval is enough
+							}
+						}
+						if err := used.UnmarshalBinary(data); err != nil {
+							panic(err)
+						}
 					}
 					// a legitimate slot operation in between must not launder the alteration: whatever it does,
 					// the next retrieval of every slot that is still there must fail as well (one alteration of
